@@ -102,7 +102,7 @@ int (*env_alloc_hook)(long k);
 #define LIVE_N (1u << LIVE_BITS)
 static void *live_tab[LIVE_N];
 static void *live_site[LIVE_N];
-static void *cur_site;
+static __thread void *cur_site;
 static long live_cnt;
 #define TOMB ((void *) 1)
 
@@ -330,4 +330,20 @@ psResSize_t __wrap_psChacha20Poly1305IetfEncrypt(psChacha20Poly1305Ietf_t *c, co
 {
     if (env_crypto_hook) env_crypto_hook(ENV_OP_CHACHA_ENC, c, iv, 12, pt, (unsigned) ptlen);
     return __real_psChacha20Poly1305IetfEncrypt(c, pt, ptlen, iv, aad, aadlen, ct);
+}
+
+/* ------------------------------------------------------------- mutex seam */
+void (*env_lock_hook)(void *mutex);     /* called before the real lock (scheduling point) */
+void (*env_unlock_hook)(void *mutex);   /* called after the real unlock */
+void __real_psLockMutex(psMutex_t *m);
+void __real_psUnlockMutex(psMutex_t *m);
+void __wrap_psLockMutex(psMutex_t *m)
+{
+    if (env_lock_hook) env_lock_hook(m);
+    __real_psLockMutex(m);
+}
+void __wrap_psUnlockMutex(psMutex_t *m)
+{
+    __real_psUnlockMutex(m);
+    if (env_unlock_hook) env_unlock_hook(m);
 }
